@@ -176,19 +176,33 @@ func headTail(b []byte, h, t int) string {
 }
 
 func buildWorker(scratch, variant string) (string, *rewrite.Stats) {
-	ov, st, err := rewrite.Run(rewrite.Options{Repo: repoDir(), Out: scratch, GoBin: goBin(), Variant: variant, Env: goEnv()})
-	if err != nil {
-		fatal2("rewrite failed (exit 2, not a verdict): %v", err)
+	var lastOut []byte
+	var lastErr error
+	// second attempt without the tuning knobs: a change to the tree may use such a constant in
+	// a way the knob rewrite cannot follow; the check then runs with the shipped values only
+	for _, noKnobs := range []bool{false, true} {
+		ov, st, err := rewrite.Run(rewrite.Options{Repo: repoDir(), Out: scratch, GoBin: goBin(), Variant: variant, Env: goEnv(), NoKnobs: noKnobs})
+		if err != nil {
+			fatal2("rewrite failed (exit 2, not a verdict): %v", err)
+		}
+		bin := filepath.Join(scratch, "simworker")
+		cmd := exec.Command(goBin(), append(append([]string{"build"}, modfileArgs(scratch)...), "-overlay", ov, "-o", bin, "./cmd/simworker")...)
+		cmd.Dir = verifDir
+		cmd.Env = append(os.Environ(), goEnv()...)
+		out, err := cmd.CombinedOutput()
+		if err == nil {
+			if noKnobs {
+				fmt.Printf("verifsim: the build with tuning knobs failed; built without them (shipped constants only):\n%s\n", headTail(lastOut, 600, 0))
+			}
+			return bin, st
+		}
+		lastOut, lastErr = out, err
+		if st.Knobs == 0 {
+			break
+		}
 	}
-	bin := filepath.Join(scratch, "simworker")
-	cmd := exec.Command(goBin(), append(append([]string{"build"}, modfileArgs(scratch)...), "-overlay", ov, "-o", bin, "./cmd/simworker")...)
-	cmd.Dir = verifDir
-	cmd.Env = append(os.Environ(), goEnv()...)
-	out, err := cmd.CombinedOutput()
-	if err != nil {
-		fatal2("building the worker from /repo's working tree failed (exit 2, not a verdict): %v\n%s", err, out)
-	}
-	return bin, st
+	fatal2("building the worker from /repo's working tree failed (exit 2, not a verdict): %v\n%s", lastErr, lastOut)
+	return "", nil
 }
 
 // modfileArgs: with VERIF_REPO set (a scratch worktree of the repository under
